@@ -1984,6 +1984,10 @@ func (m *Matcher) evalCmp(e *env, fr *frame, l ast.Expr, op token.Token, r ast.E
 			if lt.bkey != nil {
 				return m.cmpAbs(e.rbind[lt.bkey], lt.bkey, op, 0)
 			}
+			if rt.key == `str:""` {
+				// a string is "" exactly when it has no bytes
+				return m.cmpKey(e, "size:"+strings.TrimPrefix(k, "size:"), op, 0, "")
+			}
 			return m.cmpKey(e, "nil?"+k, op, 0, "size:"+k)
 		}
 	}
